@@ -206,6 +206,13 @@ def run_case(case):
                     case=case)
         return r
     r.ev(m)
+    # the documented shortcuts pdf / cdf are the same functions as the long names
+    np.random.seed(7)
+    short_c = np.asarray(gm.cdf(base_df.copy()), float)
+    short_p = np.asarray(gm.pdf(base_df.copy()), float)
+    r.tr(2)
+    if not (np.array_equal(short_c, c0, equal_nan=True) and np.array_equal(short_p, p0, equal_nan=True)):
+        r.violation('C13:shortcut', f'{tag}: pdf / cdf differ from probability_density / cumulative_distribution', case=case)
     tol = 1e-8 if d == 2 else 2e-4
     if c0.shape != (m,) or np.isnan(c0).any() or c0.min() < -tol or c0.max() > 1 + tol:
         r.violation('C13:cdf-range', f'{tag}: cumulative_distribution outside [0,1] or wrong shape: {c0.min()!r}..{c0.max()!r}',
